@@ -11,7 +11,7 @@ import ast
 from ..classify import KEYIDX, SAME
 from ..engine import Ctx, Finding, RuleResult, cfg_str, trace_of
 from ..loader import AnalysisError, dotted_name
-from ..terms import EV, EVKEY, KINDS, show, subterms
+from ..terms import EV, EVKEY, EVSTORE, KINDS, show, subterms
 from .common import (construct_id, decisions_on, emissions, is_grouping,
                      mk_finding, mux_emissions, summary, terminals)
 
@@ -354,7 +354,26 @@ def rule_mx6(ctx: Ctx) -> RuleResult:
         ok = len(probes) == 1 and len(subs) == 1 and len(topo) == 1 and probes[0] < topo[0] < subs[0]
         r.ob(ok, lambda: Finding("MX-6", "with_store_mux{probe-before-subscribe}", ws.module.where(ws.subscribe_fn),
                                  "the state topology must be probed, then registered in the store, before the source is subscribed", trace_of(p)))
-    r.require_instances(2)
+    # with_store on several sources: every subscriber is probed when it subscribes; the sources are subscribed only once the
+    # topology gathered from all of them is registered in the store
+    wss = ctx.site("rxsci/state/with_store.py", "with_store_mux_on_sources.on_subscribe")
+    r.instances += 1
+    saw_sub = False
+    for p in ctx.fn_paths(wss.module, wss.subscribe_fn, roles=wss.roles):
+        r.paths += 1
+        if p.outcome == "raise":
+            continue
+        seq = [e for e in p.trace if e.k == "emit" or (e.k == "call" and e.d.get("method") in ("subscribe", "subscribe_", "set_topology"))]
+        probes = [k for k, e in enumerate(seq) if e.k == "emit" and e.method == "on_next" and e.arg[0] == "mkevent" and e.arg[1] == "Probe"]
+        subs = [k for k, e in enumerate(seq) if e.k == "call" and e.method in ("subscribe", "subscribe_")]
+        topo = [k for k, e in enumerate(seq) if e.k == "call" and e.method == "set_topology"]
+        ok = len(probes) == 1 and (not subs or (len(topo) == 1 and probes[0] < topo[0] < subs[0]))
+        saw_sub = saw_sub or bool(subs)
+        r.ob(ok, lambda p=p: Finding("MX-6", "with_store_mux_on_sources{probe-before-subscribe}", wss.module.where(wss.subscribe_fn),
+                                     "each subscriber must be probed once, and the sources may be subscribed only after the topology is registered in the store "
+                                     "(set_topology): stateful operators otherwise address states the store never created", trace_of(p)))
+    r.ob(saw_sub, lambda: Finding("MX-6", "with_store_mux_on_sources{subscribe}", wss.module.where(wss.subscribe_fn), "no path subscribes the sources"))
+    r.require_instances(3)
     return r
 
 
@@ -530,4 +549,52 @@ def _lv(ctx):
     return rule_lv(ctx)
 
 
-RULES = [rule_mx_flat, _lv, rule_mx5, rule_mx6, rule_mx7, rule_mx8, rule_wc2]
+def rule_ev1(ctx: Ctx) -> RuleResult:
+    """EV-1 event typing: on the paths an event of a given kind takes through a mux handler, only the fields that kind has are
+    read (OnCreateMux / OnCompletedMux: key, store; OnNextMux: key, item, store; OnErrorMux: key, error, store), and the key -- a
+    tuple -- is not used as an object with methods."""
+    r = RuleResult("EV-1", "mux handlers read only the fields the event kind has, on every path of that kind (no .item of an OnErrorMux, no method of the key tuple); "
+                           "events sent on carry the store of the event being handled")
+    classes = classify_sites(ctx)
+    for site in ctx.sites:
+        if site.ctor == "create":
+            continue
+        for spec in site.handler_specs("on_next"):
+            r.instances += 1
+            seen = set()
+            for kind, cfg, paths in ctx.all_paths(spec, kinds=("Create", "Next", "Completed", "Error", "Probe")):
+                for p in paths:
+                    r.paths += 1
+                    bad = [e for e in p.trace if e.k == "badfield"]
+                    r.groups.add((spec.qualname, kind))
+                    for e in bad:
+                        sig = (id(e.node), kind)
+                        if sig in seen:
+                            continue
+                        seen.add(sig)
+                        r.ob(False, lambda e=e, kind=kind, cfg=cfg, p=p: mk_finding(
+                            "EV-1", spec, kind, cfg, p, "an event of kind %s reaches '%s': %s (AttributeError when such an event arrives; the tests never send one here)" % (
+                                kind, ("ev." + e.field) if not e.field.startswith("key.") else "ev." + e.field,
+                                "the kind has no such field" if not e.field.startswith("key.") else "the key is a tuple"), node=e.node, extra=e.field))
+                    if not bad:
+                        r.ob(True)
+                    # every event an operator sends on carries the store of the event it is handling (the operators downstream
+                    # address their state through it); only with_store installs a store
+                    if classes.get(site) in ("flat", "grouping", "join") and "with_store" not in site.short and kind != "Probe":
+                        for m_ in mux_emissions(p, roles=("down", "outer")):
+                            ev_ = m_.event
+                            if ev_ is None or ev_.kind not in ("Create", "Next", "Completed", "Error") or ev_.how == "same":
+                                continue
+                            sig = (id(m_.eff.node), kind, "store")
+                            if sig in seen:
+                                continue
+                            seen.add(sig)
+                            r.ob(ev_.store == EVSTORE, lambda m_=m_, kind=kind, cfg=cfg, p=p: mk_finding(
+                                "EV-1", spec, kind, cfg, p, "the event %s is sent on with store = %s instead of the store of the event being handled: the stateful "
+                                "operators downstream address their state through it" % (m_.brief(), show(m_.event.store) if m_.event.store is not None else None),
+                                node=m_.eff.node, extra="store"))
+    r.require_instances(ctx.scaled(25))
+    return r
+
+
+RULES = [rule_ev1, rule_mx_flat, _lv, rule_mx5, rule_mx6, rule_mx7, rule_mx8, rule_wc2]
